@@ -10,7 +10,7 @@ one() {
   name=$(basename $d)
   prop=$(echo $name | sed -E 's/^revert_(C[0-9]+)_.*/\1/; s/^(C[0-9]+)_.*/\1/')
   if [ "$mode" = "own" ]; then
-    res=$(/venv/bin/python tools/run_seeded.py $d --checks $prop --seeds 0,1 2>&1 | tail -1)
+    res=$(/venv/bin/python tools/run_seeded.py $d --checks $prop --seeds ${SEEDS:-0,1} 2>&1 | tail -1)
   else
     res=$(/venv/bin/python tools/run_seeded.py $d 2>&1 | tail -1)
   fi
